@@ -28,21 +28,31 @@ def impl(case):
             ("t", 1): OperatorTemplate("tb", equations=["x' = r_in + r_in"], variables={"x": "output(0.0)", "r_in": "input(0.0)"}),
         }
         opname = {("s", 0): "sa", ("s", 1): "sb", ("t", 0): "ta", ("t", 1): "tb"}
+        # a "tap": a second operator on the source node that reads x through the operator graph (w' = x)
+        tap_op = OperatorTemplate("tp", equations=["w' = x"], variables={"w": "variable(0.0)", "x": "input(0.0)"})
+        tapped = {s_: w0 for s_, w0 in case.get("taps", [])}
+        ints = set(case.get("int_edges", []))
+        num = lambda v, i: int(Fr(v)) if i in ints and Fr(v).denominator == 1 else float(Fr(v))
         nodes, outs = {}, {}
         for i, n in enumerate(case["nodes"]):
             key = (n["kind"], n["cls"])
             vals = {"x": float(Fr(n["x0"]))}
             if n["kind"] == "s":
                 vals["k"] = float(Fr(n["k"]))
-            nodes[f"n{i}"] = NodeTemplate(f"N{i}", operators={ops[key]: vals})
+            opd = {ops[key]: vals}
+            if i in tapped:
+                opd[tap_op] = {"w": float(Fr(tapped[i]))}
+            nodes[f"n{i}"] = NodeTemplate(f"N{i}", operators=opd)
             outs[f"n{i}"] = f"n{i}/{opname[key]}/x"
+        for j, (s_, w0) in enumerate(case.get("taps", [])):
+            outs[f"tap{j}"] = f"n{s_}/tp/w"
         edges = []
-        for s, t, w, ds in case["edges"]:
+        for ei, (s, t, w, ds) in enumerate(case["edges"]):
             d = {"weight": float(Fr(w))}
             if ds != "nokey":
-                d["delay"] = float(Fr(ds[0]))
+                d["delay"] = num(ds[0], ei)
                 if len(ds) > 1:
-                    d["spread"] = float(Fr(ds[1]))
+                    d["spread"] = num(ds[1], ei)
             sk = opname[(case["nodes"][s]["kind"], case["nodes"][s]["cls"])]
             tk = opname[(case["nodes"][t]["kind"], case["nodes"][t]["cls"])]
             edges.append((f"n{s}/{sk}/x", f"n{t}/{tk}/r_in", None, d))
@@ -55,7 +65,7 @@ def impl(case):
                       in_place=False, **kw)
         except (IndexError, ValueError, KeyError, TypeError, AttributeError, NameError) as e:
             return {"raised": type(e).__name__, "msg": str(e)[:160]}
-        cols = [f"n{i}" for i in range(len(case["nodes"]))]
+        cols = [f"n{i}" for i in range(len(case["nodes"]))] + [f"tap{j}" for j in range(len(case.get("taps", [])))]
         return [[frac(np.asarray(r[cname].values[j]).reshape(-1)[0]) for cname in cols] for j in range(len(r.index))]
     finally:
         reset_pyrates()
@@ -77,15 +87,22 @@ def impl_conn(case):
         # (a population of >= 2 units with the bare right-hand side `r_in` does not compile: shape check on no_op(r_in))
         top = OperatorTemplate("ta", equations=["x' = r_in + m"], variables={"x": "output(0.0)", "r_in": "input(0.0)", "m": 0.0})
         tnode = NodeTemplate("TN", operators=[top])
-        pops = {"p": PopulationTemplate("p", NodeTemplate("SN", operators=[sop]), ns,
-                                        params={"sa/k": [float(Fr(n["k"])) for n in nodes[:ns]], "sa/x": [float(Fr(n["x0"])) for n in nodes[:ns]]})}
+        taps = case.get("taps", [])
+        sops, sparams = [sop], {"sa/k": [float(Fr(n["k"])) for n in nodes[:ns]], "sa/x": [float(Fr(n["x0"])) for n in nodes[:ns]]}
+        if taps:          # a second operator on the source population's node that reads x through the operator graph
+            sops.append(OperatorTemplate("tp", equations=["w' = x + m"], variables={"w": "variable(0.0)", "x": "input(0.0)", "m": 0.0}))
+            sparams["tp/w"] = [float(Fr(w0)) for _, w0 in taps]
+        pops = {"p": PopulationTemplate("p", NodeTemplate("SN", operators=sops), ns, params=sparams)}
         outs = {"p": "p/sa/x"}; sizes = [("p", ns)]; off = ns
         for i, nt in enumerate(nts):
             if nt:
                 pops[f"q{i}"] = PopulationTemplate(f"q{i}", tnode, nt, params={"ta/x": [float(Fr(n["x0"])) for n in nodes[off:off + nt]]})
                 outs[f"q{i}"] = f"q{i}/ta/x"; sizes.append((f"q{i}", nt)); off += nt
+        num = lambda v: int(Fr(v)) if case.get("int_conn") and Fr(v).denominator == 1 else float(Fr(v))
         conns = [Connectivity(source="p/sa/x", target=f"q{cn['tgt']}/ta/r_in", weights=np.array([[float(Fr(w)) for w in row] for row in cn["W"]]),
-                              delays=float(Fr(cn["d"])), spread=float(Fr(cn["s"]))) for cn in case["conns"]]
+                              delays=num(cn["d"]), spread=num(cn["s"])) for cn in case["conns"]]
+        if taps:
+            outs["w"] = "p/tp/w"; sizes.append(("w", ns))
         c = CircuitTemplate("c", populations=pops, connections=conns)
         dt = float(Fr(case["dt"]))
         try:
@@ -171,7 +188,7 @@ def gen_case(rng, kind="valid"):
         S = [i for i, n in enumerate(nodes) if n["kind"] == "s"]; T = [i for i, n in enumerate(nodes) if n["kind"] == "t"]
         dt = Fr(1, rng.choice([4, 8]))
         vec = rng.random() < 0.5 and kind != "plain"
-        dde = rng.choice([0, 0, 0, 2, 3]) if kind == "valid" else (rng.choice([1, 2, 3]) if kind in ("dde", "kernel") else 0)
+        dde = rng.choice([0, 0, 0, 2, 3]) if kind == "valid" else (rng.choice([1, 2, 3]) if kind in ("dde", "kernel", "mixkeys") else 0)
         pp = pairs(dt)
         edges, seen = [], set()
         for _ in range(rng.randint(1, 5)):
@@ -232,7 +249,35 @@ def gen_case(rng, kind="valid"):
             edges.append([e[0], rng.choice(T), "1", list(e[3])])
         if not edges:
             continue
+        if kind == "mixkeys":
+            # vectorized, dde_approx > 0, a plain-delay edge and a (delay, spread) edge in ONE edge group (same source class, target class)
+            vec = True; dde = dde or rng.choice([1, 2])
+            e = rng.choice([x for x in edges if x[3] != "nokey"] or [None])
+            if e is None:
+                continue
+            edges.append([rng.choice([i for i in S if nodes[i]["cls"] == nodes[e[0]]["cls"]]),
+                          rng.choice([j for j in T if nodes[j]["cls"] == nodes[e[1]]["cls"]]), "1", [str(rng.choice([Fr(1, 2), Fr(1)]))]])
+        if kind == "intdelay":
+            vec = vec and rng.random() < 0.0          # (non-vectorized: keeps this stream apart from the mixed-key class D103)
+            # `delay: 1` written as an int, with a spread (or with dde_approx), alone on its source variable (D102)
+            s_ = rng.choice(S)
+            edges = [e for e in edges if e[0] != s_]
+            sp = rng.choice([Fr(1, 2), Fr(5, 8), Fr(3, 4), Fr(1)])
+            if rng.random() < 0.3:
+                dde = rng.choice([1, 2]); edges.append([s_, rng.choice(T), "1", ["1"]])
+            else:
+                edges.append([s_, rng.choice(T), "1", ["1", str(sp)]])
         case = dict(dt=str(dt), steps=rng.randint(8, 12), vectorize=vec, dde=dde, nodes=nodes, edges=edges)
+        if kind == "intdelay":
+            case["int_edges"] = [len(edges) - 1]
+        if kind in ("valid", "chains", "tap", "kernel"):
+            # taps: every source node of some structural classes carries a second operator w' = x; integral delays/spreads as ints
+            tcls = [c_ for c_ in sorted({nodes[i]["cls"] for i in S}) if rng.random() < (1.0 if kind == "tap" else 0.3)]
+            if tcls:
+                case["taps"] = [[i, str(Fr(rng.randint(-4, 4), 2))] for i in S if nodes[i]["cls"] in tcls]
+            ie = [i for i, e in enumerate(edges) if e[3] != "nokey" and Fr(e[3][0]).denominator == 1 and rng.random() < 0.4]
+            if ie:
+                case["int_edges"] = ie
         if exact_ok(case):
             return case
     raise RuntimeError("generator could not produce an exactly representable case")
@@ -264,6 +309,10 @@ def gen_conn(rng):
             off += nts[i]
         case = dict(dt=str(dt), steps=rng.randint(8, 12), vectorize=True, dde=0, nodes=nodes, edges=edges, connectivity=True,
                     pops=[ns] + nts, conns=conns)
+        if rng.random() < 0.4:
+            case["taps"] = [[j, str(Fr(rng.randint(-4, 4), 2))] for j in range(ns)]
+        if rng.random() < 0.4:
+            case["int_conn"] = True          # integral delays / spreads of the Connectivity objects written as Python ints
         if exact_ok(case):
             return case
     raise RuntimeError("generator could not produce an exactly representable Connectivity case")
@@ -272,7 +321,8 @@ def nontrivial(case):
     return len({tuple(e[3]) for e in case["edges"] if e[3] != "nokey" and len(e[3]) == 2}) >= 2
 
 # ---------------------------------------------------------------------------------------------- model side
-GUARDS = ["g_all_spread", "g_no_undelayed_kernel", "g_above_step", "g_rates_exact", "g_no_scalar_shared_chain"]
+LIST_GUARDS = ["g_no_tap_on_buffered", "g_no_int_unit_delay"]
+GUARDS = ["g_all_spread", "g_no_undelayed_kernel", "g_above_step", "g_rates_exact", "g_no_scalar_shared_chain", "g_uniform_keys"] + LIST_GUARDS
 HEADER = """From Coq Require Import List ZArith QArith Qcanon Bool Arith.
 From PV Require Import Ring Gamma Corr.
 Import ListNotations.
@@ -282,7 +332,17 @@ Definition okC (p : gcircuit * nat * res) := let '(c, n, r) := p in res_eqb (Ok 
 Definition gd' (g : gcircuit -> bool) (p : gcircuit * nat * res) := let '(c, n, r) := p in g c.
 """
 
+def expand(case):
+    """a tap on source node s = an extra integrator node (appended) + an edge without delay of weight 1 from s to it (appended);
+    -> (nodes, edges, positions of the tap edges)"""
+    nodes = list(case["nodes"]); edges = list(case["edges"]); pos = []
+    for s_, w0 in case.get("taps", []):
+        nodes.append(dict(kind="t", cls=0, k="0", x0=w0))
+        pos.append(len(edges)); edges.append([s_, len(nodes) - 1, "1", "nokey"])
+    return nodes, edges, pos
+
 def coq_circuit(case):
+    case = dict(case, nodes=expand(case)[0], edges=expand(case)[1], taps=[])
     nodes = clist([f"mkNode {cbool(n['kind'] == 's')} {cnat(n['cls'])} {cq(n.get('k', '0'))} {cq(n['x0'])}" for n in case["nodes"]])
     def dsp(ds):
         if ds == "nokey":
@@ -304,30 +364,38 @@ def model_compare(ctx, cases, outs, tag):
     shard = 30
     for s in range(0, len(cases), shard):
         terms = [coq_case(c, o) for c, o in zip(cases[s:s + shard], outs[s:s + shard])]
-        body = ("Definition cases := " + clist(terms) + ".\n"
+        taps = clist([clist([cnat(i) for i in expand(c)[2]]) for c in cases[s:s + shard]])
+        ints = clist([clist([cnat(i) for i in c.get("int_edges", [])]) for c in cases[s:s + shard]])
+        plain = [g for g in GUARDS if g not in LIST_GUARDS]
+        body = ("Definition cases := " + clist(terms) + ".\nDefinition taps : list (list nat) := " + taps + ".\n"
+                "Definition ints : list (list nat) := " + ints + ".\n"
                 "Eval vm_compute in (mismatches okI cases).\nEval vm_compute in (mismatches okS cases).\n"
                 "Eval vm_compute in (mismatches (gd' gwf) cases).\n" +
-                "".join(f"Eval vm_compute in (mismatches (gd' {g}) cases).\n" for g in GUARDS))
+                "".join(f"Eval vm_compute in (mismatches (gd' {g}) cases).\n" for g in plain) +
+                "Eval vm_compute in (mismatches (fun p => gd' (g_no_tap_on_buffered (snd p)) (fst p)) (combine cases taps)).\n"
+                "Eval vm_compute in (mismatches (fun p => gd' (g_no_int_unit_delay (snd p)) (fst p)) (combine cases ints)).\n")
         ls = parse_nat_lists(coq_eval(ctx, f"c11_{tag}_{s}", HEADER, body))
         assert len(ls) == 3 + len(GUARDS), ls
         badI += [s + i for i in ls[0]]; badS += [s + i for i in ls[1]]; nwf += [s + i for i in ls[2]]
-        for g, l in zip(GUARDS, ls[3:]):
+        for g, l in zip(plain + LIST_GUARDS, ls[3:]):
             gfalse[g] += [s + i for i in l]
     return badI, badS, nwf, gfalse
 
 def conn_compare(ctx, cases, outs, tag):
     """Connectivity cases: -> (bad vs the cascade model gconn_run, bad vs Spec, g_conn false)"""
-    badC, badS, gf = [], [], []
+    badC, badS, gf, gt = [], [], [], []
     shard = 30
     for s in range(0, len(cases), shard):
         terms = [coq_case(c, o) for c, o in zip(cases[s:s + shard], outs[s:s + shard])]
-        body = ("Definition cases := " + clist(terms) + ".\n"
+        taps = clist([clist([cnat(i) for i in expand(c)[2]]) for c in cases[s:s + shard]])
+        body = ("Definition cases := " + clist(terms) + ".\nDefinition taps : list (list nat) := " + taps + ".\n"
                 "Eval vm_compute in (mismatches okC cases).\nEval vm_compute in (mismatches okS cases).\n"
-                "Eval vm_compute in (mismatches (gd' g_conn) cases).\n")
+                "Eval vm_compute in (mismatches (gd' g_conn) cases).\n"
+                "Eval vm_compute in (mismatches (fun p => gd' (g_no_tap_on_buffered (snd p)) (fst p)) (combine cases taps)).\n")
         ls = parse_nat_lists(coq_eval(ctx, f"c11c_{tag}_{s}", HEADER, body))
-        assert len(ls) == 3, ls
-        badC += [s + i for i in ls[0]]; badS += [s + i for i in ls[1]]; gf += [s + i for i in ls[2]]
-    return badC, badS, gf
+        assert len(ls) == 4, ls
+        badC += [s + i for i in ls[0]]; badS += [s + i for i in ls[1]]; gf += [s + i for i in ls[2]]; gt += [s + i for i in ls[3]]
+    return badC, badS, gf, gt
 
 def model_outputs(ctx, case, tag):
     body = (f"Definition c := {coq_circuit(case)}.\nEval vm_compute in (impl_params c, spec_params c).\n"
@@ -371,7 +439,7 @@ def check(ctx):
         cases = [c["case"] if "case" in c else c for c in load_corpus("C11")]
         cases += [gen_case(ctx.rng, "valid") for _ in range(n_valid)]
         cases += [gen_case(ctx.rng, "chains") for _ in range(n_valid // 5)]
-        for kind in ("plain", "dde", "kernel", "shared", "perm"):
+        for kind in ("plain", "dde", "kernel", "shared", "perm", "tap", "intdelay", "mixkeys"):
             cases += [gen_case(ctx.rng, kind) for _ in range(n_viol)]
         cases += [gen_conn(ctx.rng) for _ in range(n_valid * 2 // 5)]
     is_conn = [bool(c.get("connectivity")) for c in cases]
@@ -391,10 +459,12 @@ def check(ctx):
         for i in gfalse[g]:
             guard_viol.setdefault(good[i], []).append(g)
     cgood = [i for i in ci if i not in crashed]
-    badC, badSc, gcf = conn_compare(ctx, [cases[i] for i in cgood], [outs[i] for i in cgood], "conn")
+    badC, badSc, gcf, gct = conn_compare(ctx, [cases[i] for i in cgood], [outs[i] for i in cgood], "conn")
     badI += [cgood[i] for i in badC]; badS += [cgood[i] for i in badSc]
     for i in gcf:
         guard_viol.setdefault(cgood[i], []).append("g_conn")
+    for i in gct:
+        guard_viol.setdefault(cgood[i], []).append("g_no_tap_on_buffered")
     good = good + cgood
     ctx.note(f"Connectivity(delays, spread) stream: {len(ci)} population circuits, mismatches vs the cascade model {len(badC)}, vs Spec {len(badSc)}")
     in_guard = [i for i in good if i not in guard_viol]
@@ -410,7 +480,8 @@ def check(ctx):
                    show=lambda c: dict(implementation_output=fails(ctx, c, "show")[1], model_output=model_outputs(ctx, c, "show")))
     nt = {canon(c) for i, c in enumerate(cases) if nontrivial(c) and i in in_guard}
     orders = sorted({rhe((Fr(e[3][0]) / Fr(e[3][1])) ** 2) for c in cases for e in c["edges"] if e[3] != "nokey" and len(e[3]) == 2})
-    hist = dict(connectivity=len(ci), connectivity_multi=sum(1 for i in ci if len(cases[i]["conns"]) > 1),
+    hist = dict(with_taps=sum(1 for c in cases if c.get("taps")), int_delays=sum(1 for c in cases if c.get("int_edges") or c.get("int_conn")),
+                connectivity=len(ci), connectivity_multi=sum(1 for i in ci if len(cases[i]["conns"]) > 1),
                 connectivity_same_delay_other_spread=sum(1 for i in ci if any(a["d"] == b["d"] and a["s"] != b["s"] for a in cases[i]["conns"] for b in cases[i]["conns"])), vectorized=sum(1 for c in cases if c["vectorize"]), dde_approx=sorted({c.get("dde", 0) for c in cases}),
                 in_guard=len(in_guard), guard_violating={g: len(gfalse[g]) for g in GUARDS}, orders=orders,
                 pairs=len({tuple(e[3]) for c in cases for e in c["edges"] if e[3] != "nokey" and len(e[3]) == 2}),
